@@ -723,7 +723,7 @@ bool TimeZoneInfo::Load(ZoneInfoSource* zip) {
   // Determine the before-first-transition type.
   default_transition_type_ = 0;
   if (seen_type_0 && hdr.timecnt != 0) {
-    std::uint_fast8_t index = 0;
+    std::size_t index = 0;  // wide enough to reach typecnt == 256
     if (transition_types_[0].is_dst) {
       index = transitions_[0].type_index;
       while (index != 0 && transition_types_[index].is_dst)
@@ -732,7 +732,7 @@ bool TimeZoneInfo::Load(ZoneInfoSource* zip) {
     while (index != hdr.typecnt && transition_types_[index].is_dst)
       ++index;
     if (index != hdr.typecnt)
-      default_transition_type_ = index;
+      default_transition_type_ = static_cast<std::uint_fast8_t>(index);
   }
 
   // Copy all the abbreviations.
